@@ -70,8 +70,9 @@ def apply_reencoding(kind, par, X, y, quant, qual):
             X2[f] = X2[f] * a
     elif kind == "rename":
         for f in qual:
-            m = {v: f"r{i}_{v}" for i, v in enumerate(sorted(set(X2[f].tolist()), reverse=True))}
-            X2[f] = X2[f].map(m)
+            known = sorted({v for v in X2[f].tolist() if not selgen._missing(v)}, reverse=True)
+            m = {v: f"r{i}_{v}" for i, v in enumerate(known)}
+            X2[f] = X2[f].map(lambda v: v if selgen._missing(v) else m[v])
     elif kind == "rows":
         X2, y2 = X.iloc[par["perm"]], y.iloc[par["perm"]]
     elif kind == "columns":
